@@ -326,10 +326,17 @@ func (g *Gen) orAlternatives(valKind Kind) RV {
 			if g.Rng.IntN(3) == 0 {
 				rs = append(rs, Rule{"nullable", LitV("true")})
 			}
+			if g.Rng.IntN(4) == 0 {
+				// an alternative has no example of its own: its constant is the annotated value
+				rs = append(rs, Rule{"const", LitV(pick(g.Rng, []string{"true", "true", "false"}))})
+			}
 			g.Rng.Shuffle(len(rs), func(i, j int) { rs[i], rs[j] = rs[j], rs[i] }) // `type` need not be written first
 			items = append(items, SetOf(rs...))
 		default:
 			rs := []Rule{{"type", LitV(`"string"`)}, {pick(g.Rng, []string{"minLength", "maxLength"}), LitV(strconv.Itoa(g.Rng.IntN(6)))}}
+			if g.Rng.IntN(4) == 0 {
+				rs = append(rs, Rule{"const", LitV(pick(g.Rng, []string{"true", "true", "false"}))})
+			}
 			g.Rng.Shuffle(len(rs), func(i, j int) { rs[i], rs[j] = rs[j], rs[i] })
 			items = append(items, SetOf(rs...))
 		}
